@@ -224,32 +224,34 @@ def eval_cases(name, cases, observations, backends=BACKENDS, shard=150):
                 nst = len(ob.steps_coq)
                 stp = " && ".join([f"stp{ci}_{bi}_{j}" for j in range(nst)] or ["true"])
                 if ob.ast_coq is not None and ob.names is not None:
-                    entries.append(f"({slot}, code (check_case db{ci} ast{ci}_{bi} false obs{ci}_{bi}), "
+                    entries.append(f"({slot - s0 * len(backends)}, code (check_case db{ci} ast{ci}_{bi} false obs{ci}_{bi}), "
                                    f"cache_diff (cache_of_ast sch{ci}_{bi} ast{ci}_{bi}) cch{ci}_{bi}, "
                                    f"(if {stp} then 0 else 1), (if wf sch{ci}_{bi} ast{ci}_{bi} then 1 else 0))")
                 else:       # the pipeline was refused: only the subquery decisions are compared
-                    entries.append(f"({slot}, 7, 0, (if {stp} then 0 else 1), 0)")
+                    entries.append(f"({slot - s0 * len(backends)}, 7, 0, (if {stp} then 0 else 1), 0)")
         if not entries:
             continue
         txt.append("Eval vm_compute in [" + ";\n ".join(entries) + "]%nat.\n")
         f = CASES / f"{name}_{s0 // shard}.v"
         f.write_text("\n".join(txt))
-        files.append(f)
+        files.append((f, s0 * len(backends)))       # slot numbers are file-local: a large nat literal is a unary term
 
-    def go(f):
+    def go(fo):
+        f = fo[0]
         return subprocess.run(["bash", "-c", f"ulimit -s unlimited; timeout 900 coqc {' '.join(common.COQ_ARGS)} {f}"],
                               capture_output=True, text=True, cwd=common.COQ)
     verdicts, errors = {}, []
     L2.clear()
     WF.clear()
     with ThreadPoolExecutor(common.NPROC) as ex:
-        for f, p in zip(files, ex.map(go, files)):
+        for (f, off), p in zip(files, ex.map(go, files)):
             if p.returncode != 0:
                 errors.append(f"{f.name}: {(p.stderr or p.stdout)[-1500:]}")
                 continue
             flat = re.sub(r"%nat|\s", "", p.stdout)
             for m in re.finditer(r"\((\d+),(\d+),(\d+),(\d+),(\d+)\)", flat):
                 slot, code, cdiff, sdiff, wfok = (int(m.group(k)) for k in (1, 2, 3, 4, 5))
+                slot += off
                 key = (slot // len(backends), backends[slot % len(backends)])
                 verdicts[key] = code
                 L2[key] = (cdiff, sdiff)
